@@ -252,8 +252,18 @@ fn draw_start(r: &mut Rng) -> u64 {
         40..=64 => P32 - 5 - k,
         65..=74 => P32 - 1 - r.below(5),
         75..=79 => MAX_INPUT + 1 + k, // injected already too large, still below 2^32
-        80..=86 => r.range(1 << 24, 1 << 26),
-        87..=92 => r.range((1 << 31) - 100, (1 << 31) + 100),
+        80..=83 => r.range(1 << 24, 1 << 26),
+        84..=86 => {
+            // just around an entry of the length table (the code changes there), upper half of the table
+            let i = r.range(60, 169) as usize;
+            (crate::tables::LEN_TOP[i] as u64 + 3).saturating_sub(r.below(7)).max(8)
+        }
+        87..=90 => r.range((1 << 31) - 100, (1 << 31) + 100),
+        91..=92 => {
+            // byte counts at which a bucket hit k times per byte wraps to exactly 0 (constant streams with colliding salts)
+            let k = *r.pick(&[2u64, 3, 4, 6]);
+            P32 / k + 4 + r.below(3) - 1
+        }
         _ => r.range(8, 1 << 30),
     }
 }
@@ -323,6 +333,10 @@ impl Scenario for C11 {
             pattern = vec![0xa4, 0x0e];
         }
         let start = draw_start(r);
+        if [2u64, 3, 4, 6].iter().any(|k| start.abs_diff(P32 / k + 4) <= 1) && !three {
+            // wrap-to-zero offsets only mean something for a constant stream
+            pattern = vec![r.next_u64() as u8];
+        }
         let nops = r.range(1, 24) as usize;
         let mut ops = Vec::new();
         let mut n = start;
